@@ -11,12 +11,13 @@ structure Atom where
   blank : Bool
 
 /-- the text after an atom does not continue it and does not start a new token glued to it: end of text, a blank or a comma -/
-def Delim (rest : List Char) : Prop := rest = [] ∨ ∃ r, rest = ' ' :: r ∨ rest = ',' :: r
+def Delim (rest : List Char) : Prop := rest = [] ∨ ∃ r, rest = ' ' :: r ∨ rest = ',' :: r ∨ rest = '\t' :: r
 
 theorem Delim.endsWord {rest : List Char} (h : Delim rest) : EndsWord rest := by
   intro d hd
-  rcases h with rfl | ⟨r, rfl | rfl⟩
+  rcases h with rfl | ⟨r, rfl | rfl | rfl⟩
   · simp at hd
+  · simp at hd; subst hd; decide
   · simp at hd; subst hd; decide
   · simp at hd; subst hd; decide
 
@@ -46,7 +47,7 @@ theorem delim_after (a : Atom) (as : List Atom) (h : SeqOk (a :: as)) (hok : ∀
     | cons b bs =>
       rcases h.1 with h1 | ⟨cs, hcs⟩
       · rw [hb] at h1; cases h1
-      · right; exact ⟨cs ++ ((if b.blank then [' '] else []) ++ renderAtoms bs), Or.inr (by simp [renderAtoms, hcs])⟩
+      · right; exact ⟨cs ++ ((if b.blank then [' '] else []) ++ renderAtoms bs), Or.inr (Or.inl (by simp [renderAtoms, hcs]))⟩
 
 theorem blen_append' (a b : List Char) : blen (a ++ b) = blen a + blen b := by
   induction a with
